@@ -52,6 +52,8 @@ def execute(c):
     ev = {"c": dict(c, same_crs=False, same_units=False), "outcome": "ok", "pos": [],
           "o": {"h": 0, "w": 0, "axis_aligned": True, "crs_ok": True, "is_source": False, "edge": [0, 0], "res_ratio": [0, 0], "square": True, "explicit_res_ok": True},
           "utm": {"is_utm": True, "overlaps": True, "north": True}}
+    if c["source"] == "point":
+        return execute_utm_point(c, ev)
     try:
         src = _source(c["source"])
         o = c["opts"]
@@ -68,6 +70,14 @@ def execute(c):
             kw["shape"] = c["shape"][0]
         if o["res"] in ("fit", "same", "auto"):
             kw["resolution"] = o["res"]
+        # the fitted resolution may be post-processed by the caller (coarser, or rounded to whole metres): enclosure, squareness and alignment
+        # are owed all the same
+        hsh = len(json.dumps(c)) + len(c["source"]) + len(t)
+        if o["res"] in ("fit", "auto") and o["shape"] == "none" and hsh % 3 == 0:
+            kw["round_resolution"] = lambda r, units: r * 1.25
+        elif o["res"] in ("fit", "auto") and o["shape"] == "none" and hsh % 3 == 1 and t in ("3857", "3035", "6933", "32633", "3577", "utm", "utm-n", "utm-s") \
+                and not c["source"].startswith(("eu_4326_tile", "au_4326_tile", "equator", "au_4326_nonsquare", "eu_4326_rot180")):
+            kw["round_resolution"] = True
         out_probe = None
         if o["res"] == "explicit":
             # explicit resolution in the units of the target: decided from the resolved CRS
@@ -129,6 +139,37 @@ def execute(c):
     return ev
 
 
+def execute_utm_point(c, ev):
+    """CRS.utm(...) for a place given in several forms: a UTM CRS whose area of use contains the place (environment: pyproj's area of use)"""
+    from odc.geo import geom as G
+    from odc.geo.crs import CRS
+    from odc.geo.types import xy_
+
+    lon, lat = c["lon10"] / 10, c["lat10"] / 10
+    try:
+        f = c["form"]
+        if f == "floats":
+            crs = CRS.utm(lon, lat)
+        elif f == "xy":
+            crs = CRS.utm(xy_(lon, lat))
+        elif f == "bbox":
+            crs = CRS.utm(G.BoundingBox(lon - 0.05, lat - 0.05, lon + 0.05, lat + 0.05, "epsg:4326"))
+        elif f == "geom":
+            crs = CRS.utm(G.point(lon, lat, "epsg:4326").buffer(0.05))
+        elif f == "geom_no_crs":
+            crs = CRS.utm(G.point(lon, lat, None).buffer(0.05))
+        else:
+            crs = CRS.utm(G.point(lon, lat, "epsg:4326").to_crs("epsg:3857").buffer(5000))
+        z = crs.proj.utm_zone
+        aou = crs.proj.area_of_use
+        ev["utm"] = {"is_utm": z is not None, "overlaps": bool(aou is not None and aou.west <= lon <= aou.east and aou.south <= lat <= aou.north),
+                     "north": bool(z is not None and z.endswith("N"))}
+        ev["c"] = dict(c, same_crs=False, same_units=False)
+    except Exception as ex:  # noqa: BLE001
+        ev["outcome"] = type(ex).__name__
+    return ev
+
+
 def _validate(ctx, events):
     return ctx.validate("outgbx/OutTrace.tla", events, "OutTrace.cfg", batch=500)
 
@@ -137,12 +178,13 @@ def run(ctx):
     res, cases = ctx.model_check("outgbx/OutGen.tla", "OutGen.cfg", emit=True, timeout=1200)
     cases.sort(key=lambda c: json.dumps(c, sort_keys=True))
     total = len(cases)
-    cases = ctx.subsample(cases, 1200 if ctx.quick() else 10 ** 6)
+    pts = [c for c in cases if c["source"] == "point"]
+    cases = ctx.subsample([c for c in cases if c["source"] != "point"], 1200 if ctx.quick() else 10 ** 6) + pts
     events = ctx.pmap(execute, cases)
     verdicts = _validate(ctx, events)
     for ev, v in zip(events, verdicts):
         c = ev["c"]
-        case = {k: c[k] for k in ("source", "target", "opts", "shape")}
+        case = {k: c[k] for k in ("source", "target", "opts", "shape", "lon10", "lat10", "form") if k in c}
         ctx.record(case, v, op=f"{c['source']}>{c['target']}", nontrivial=True,
                    sample={"case": case, "out": ev["o"], "utm": ev["utm"], "npos": len(ev["pos"])})
     ctx.traces_validated = len(events)
